@@ -83,10 +83,12 @@ def deadlock_violations(sim, include_client_blocked=True):
     if include_client_blocked and oc[0] in ("stuck", "horizon") and not out:
         for (name, typ, site, timed, owner, owner_blocked) in sim.final_blocked:
             if name.startswith("client") and not timed and typ != "_Joiner":
-                out.append({"oracle": "client-blocked-forever",
-                            "sig": "client-blocked|%s@%s" % (typ, lib_chain(st.get(name, []))),
-                            "msg": "client %s blocked forever in %s created at %s (outcome %s); blocked: %r; stack %r"
-                                   % (name, typ, site, oc[0], sim.final_blocked, st.get(name))})
+                sig = "client-blocked|%s@%s" % (typ, lib_chain(st.get(name, [])))
+                if owner:
+                    sig += "|held-by:" + lib_chain(st.get(owner, []))
+                out.append({"oracle": "client-blocked-forever", "sig": sig,
+                            "msg": "client %s blocked forever in %s created at %s (outcome %s), lock holder %s at %r; blocked: %r; stack %r"
+                                   % (name, typ, site, oc[0], owner, st.get(owner, [])[:8], sim.final_blocked, st.get(name))})
                 break
     return out
 
